@@ -15,6 +15,7 @@ import re
 import numpy as np
 
 import core
+import gen
 from core import call_impl
 import _c04_ops as O
 import _c05_purity as P
@@ -457,6 +458,9 @@ def time_sweep(ctx):
     pairs = [(3, 0.1), (4091, 0.01), (2045, 0.02), (2, 0.1), (7, 0.3)]
     for _ in range(400 if ctx.tier == 'quick' else 6000):
         pairs.append((rng.randint(1, 6000), rng.choice(dts)))
+    # source hints: lengths around every new integer constant, steps at / around every new float constant (and 1/constant) of the anchored files
+    hdt = gen.hint_values(ctx, 1e-4, 10.0, cap=14, maps=(lambda c: c, lambda c: 1 / c))
+    pairs += [(m, d) for m in gen.hint_sizes(ctx, lo=1, hi=2 ** 21, cap=10) for d in dts[:4] + hdt[:4]] + [(m, d) for d in hdt for m in (7, 1000, 4091)]
     bad = 0
     for npts, dt in pairs:
         for cls in (eqsig.Signal, eqsig.AccSignal):
@@ -567,11 +571,12 @@ def _x2_variant(m, a, variant):
     if not (isinstance(v, np.ndarray) and v.ndim == 1 and v.dtype.kind == 'f') or m.kind not in ('arr', 'sig'):
         return a, []
     extra = []
-    if variant == 'large':
+    if variant.startswith('large'):
         if len(v) < 32:
             return a, []
-        reps = -(-X2_LARGE_N // len(v))
-        c = np.tile(v, reps)[:X2_LARGE_N] * (1 + 0.01 * np.arange(X2_LARGE_N) / X2_LARGE_N)
+        N = int(variant[6:]) if variant[5:6] == ':' else X2_LARGE_N           # 'large:<n>': a hinted size (source hints)
+        reps = -(-N // len(v))
+        c = np.tile(v, reps)[:N] * (1 + 0.01 * np.arange(N) / N)
     elif variant == 'int32':
         c = np.round(v * 8).astype(np.int32)
     elif variant == 'float32':
@@ -597,13 +602,14 @@ def x2_purity(ctx):
     rng = ctx.rng
     P.build()
     quick = ctx.tier == 'quick'
+    hinted = tuple('large:%d' % m for m in gen.hint_sizes(ctx, lo=600, hi=20000, cap=3))       # source hints: sizes around every new integer constant
     for name in sorted(P.CALLS):
         for label, call, makers in P.CALLS[name]:
             if not any(m.kind in ('arr', 'sig') for m in makers):
                 continue
             has_arr = any(m.kind == 'arr' for m in makers)
-            for variant in ('large', 'int32', 'float32', 'strided') + (('tuple',) if has_arr else ()):
-                if variant == 'large' and quick and name.startswith(X2_SLOW):
+            for variant in ('large', 'int32', 'float32', 'strided') + (('tuple',) if has_arr else ()) + hinted:
+                if variant.startswith('large') and (quick or variant in hinted) and name.startswith(X2_SLOW):
                     continue
                 for rep in range(1 if quick else 3):
                     pairs = [_x2_variant(m, m(rng), variant) for m in makers]
@@ -613,9 +619,9 @@ def x2_purity(ctx):
                     r1 = call_impl(call, *args)
                     changed = [i for i, (x, a) in enumerate(zip(before, watched)) if x != P.snap(a)]
                     key = 'purity2/%s%s/%s' % (name, '[%s]' % label if label else '', variant)
-                    big = variant == 'large'
+                    big = variant.startswith('large')
                     ctx.oracle(CL_PURE, not changed, inputs=None if not changed else {'fn': name, 'shape': label, 'variant': variant,
-                                                                                        'args': 'default arguments tiled to 5200 samples x (1 + 0.01 j/5200)' if big else describe_args(args)},
+                                                                                        'args': 'default arguments tiled to N samples x (1 + 0.01 j/N), N = 5200 or as in the variant' if big else describe_args(args)},
                                detail={'changed argument positions (>= number of arguments: the buffer behind a strided view)': changed, 'outcome': r1[0]}, facts={'fn': name, 'variant': variant})
                     if r1[0] != 'ok':
                         ctx.hist(key + ' not accepted (%s)' % r1[1])
@@ -624,7 +630,7 @@ def x2_purity(ctx):
                     ctx.count_case((name, label, variant, repr(before)[:200]), True, sample={'fn': name, 'shape': label, 'variant': variant} if ctx.evaluations % 197 == 0 else None)
                     r2 = call_impl(call, *args)
                     same = r2[0] == 'ok' and P.same_result(r1[1], r2[1])
-                    ctx.oracle(CL_REPEAT, same, inputs=None if same else {'fn': name, 'shape': label, 'variant': variant, 'args': 'tiled to 5200 samples' if big else describe_args(args)},
+                    ctx.oracle(CL_REPEAT, same, inputs=None if same else {'fn': name, 'shape': label, 'variant': variant, 'args': 'tiled to N samples (5200 or as in the variant)' if big else describe_args(args)},
                                detail={'second call': r2[0] if r2[0] != 'ok' else 'different result'}, facts={'fn': name, 'variant': variant})
 
 
